@@ -215,8 +215,8 @@ func (d *Decoder) unmarshal(val reflect.Value, tagType byte) error {
 		if aryLen < 0 {
 			return errors.New("byte array len less than 0")
 		}
-		ba := make([]byte, aryLen)
-		if _, err = io.ReadFull(d.r, ba); err != nil {
+		ba, err := readDeclared(d.r, int(aryLen))
+		if err != nil {
 			return err
 		}
 
@@ -281,10 +281,13 @@ func (d *Decoder) unmarshal(val reflect.Value, tagType byte) error {
 
 		buf := val
 		if vt.Kind() == reflect.Slice {
-			buf = reflect.MakeSlice(vt, int(aryLen), int(aryLen))
+			buf = makeDeclared(vt, int(aryLen))
 		}
 		unsigned := vt.Elem().Kind() == reflect.Uint || vt.Elem().Kind() == reflect.Uint32
 		for i := 0; i < int(aryLen); i++ {
+			if i == buf.Len() {
+				buf = growDeclared(buf, int(aryLen))
+			}
 			value, err := d.readInt32()
 			if err != nil {
 				return err
@@ -317,11 +320,14 @@ func (d *Decoder) unmarshal(val reflect.Value, tagType byte) error {
 		}
 		buf := val
 		if vt.Kind() == reflect.Slice {
-			buf = reflect.MakeSlice(vt, int(aryLen), int(aryLen))
+			buf = makeDeclared(vt, int(aryLen))
 		}
 		switch vt.Elem().Kind() {
 		case reflect.Int, reflect.Int64:
 			for i := 0; i < int(aryLen); i++ {
+				if i == buf.Len() {
+					buf = growDeclared(buf, int(aryLen))
+				}
 				value, err := d.readInt64()
 				if err != nil {
 					return err
@@ -330,6 +336,9 @@ func (d *Decoder) unmarshal(val reflect.Value, tagType byte) error {
 			}
 		case reflect.Uint, reflect.Uint64:
 			for i := 0; i < int(aryLen); i++ {
+				if i == buf.Len() {
+					buf = growDeclared(buf, int(aryLen))
+				}
 				value, err := d.readInt64()
 				if err != nil {
 					return err
@@ -511,6 +520,51 @@ func (d *Decoder) unmarshal(val reflect.Value, tagType byte) error {
 // can be set to nil.
 //
 // This function is copied and modified from encoding/json
+// Array lengths are read from the input. Nothing is allocated at the declared size before the elements
+// have arrived: buffers start at declaredPrealloc elements at most and double while data keeps coming, so
+// a few bytes that announce 2^31 elements cost a few kilobytes and an unexpected-EOF error.
+const declaredPrealloc = 4096
+
+func makeDeclared(t reflect.Type, n int) reflect.Value {
+	if n > declaredPrealloc {
+		n = declaredPrealloc
+	}
+	return reflect.MakeSlice(t, n, n)
+}
+
+func growDeclared(buf reflect.Value, n int) reflect.Value {
+	c := buf.Len() * 2
+	if c > n {
+		c = n
+	}
+	nb := reflect.MakeSlice(buf.Type(), c, c)
+	reflect.Copy(nb, buf)
+	return nb
+}
+
+// readDeclared reads exactly n bytes, growing the buffer as they arrive.
+func readDeclared(r io.Reader, n int) ([]byte, error) {
+	c := n
+	if c > declaredPrealloc*16 {
+		c = declaredPrealloc * 16
+	}
+	buf := make([]byte, c)
+	if _, err := io.ReadFull(r, buf); err != nil {
+		return nil, err
+	}
+	for len(buf) < n {
+		c = len(buf)
+		if c > n-len(buf) {
+			c = n - len(buf)
+		}
+		buf = append(buf, make([]byte, c)...)
+		if _, err := io.ReadFull(r, buf[len(buf)-c:]); err != nil {
+			return nil, err
+		}
+	}
+	return buf, nil
+}
+
 func indirect(v reflect.Value, decodingNull bool) (Unmarshaler, encoding.TextUnmarshaler, reflect.Value, func()) {
 	v0 := v
 	haveAddr := false
